@@ -1049,8 +1049,8 @@ def check_ast(a: ast.AST):
         def visit_Constant(self, node: ast.Constant):
             # The type has to be exactly one of the legal ones: an instance of a subclass
             # (an `IntEnum` member, a numpy scalar) is not something a literal can represent.
-            if not (
-                type(node.value) in g_legal_capture_types or isinstance(node.value, ModuleType)
+            if type(node.value) not in g_legal_capture_types or isinstance(
+                node.value, ModuleType
             ):
                 raise ValueError(f"Invalid constant type: {type(node.value)} for {ast.dump(node)}")
             self.generic_visit(node)
